@@ -62,6 +62,7 @@ var c11Alphabet = []RegOp{
 	{Kind: "regconn", Target: "b1", Adv: []string{svcMessaging}}, // the backend's service set changed
 	{Kind: "regconn", Target: "b3", Adv: []string{svcFiles, svcMessaging}}, // two services of one proto file
 	{Kind: "regconn", Target: "b3", Adv: []string{}},                       // ... and then nothing at all
+	{Kind: "regconn", Target: "b1", Adv: []string{svcMessaging}, Fail: "refl:2"}, // changed AND breaking after the old registration was taken out of the clone
 	{Kind: "regconn", Target: "b2", Fail: "refl:1"},
 	{Kind: "regconn", Target: "b3", Fail: "cancel"},
 }
@@ -153,7 +154,10 @@ func genC11(r *core.Rand, run int) *MuxScenario {
 			case 0:
 				op = RegOp{Kind: "regsvc", Target: "local", Service: svcMessaging}
 			case 1:
-				op = RegOp{Kind: "regconn", Target: r.PickS("b1", "b2", "b3"), Fail: r.PickS("refl:0", "refl:1", "refl:2", "cancel")}
+				op = RegOp{Kind: "regconn", Target: r.PickS("b1", "b2", "b3"), Fail: r.PickS("refl:0", "refl:1", "refl:2", "refl:3", "cancel")}
+				if r.Chance(1, 2) {
+					op.Adv = [][]string{{tsvc}, {svcFiles}, {svcMessaging}, {tsvc, svcMessaging}}[r.Intn(4)]
+				}
 			case 2:
 				op = RegOp{Kind: "regconn", Target: r.PickS("b2", "b3"), Adv: [][]string{{tsvc}, {svcFiles}, {tsvc, svcMessaging}, {}, {svcFiles, svcMessaging}, {tsvc, svcFiles, svcMessaging}, {svcMessaging, svcFiles}}[r.Intn(7)]}
 			case 3:
